@@ -95,3 +95,9 @@ Example C03_nonvacuous_F10 :
   let nsq := [[(1#2,5#2);(1#2,7#2)];[(1#2,7#2);(3#2,7#2)];[(3#2,7#2);(3#2,5#2)];[(3#2,5#2);(1#2,5#2)]] in
   contains_shape (SC (CS nsq)) (SC (CS nL)) = Ok false /\ contains_shape (SC (CS nL)) (SC (CS nsq)) = Ok false.
 Proof. vm_compute. split; reflexivity. Qed.
+(* second half of the F10 repair (c1b252d): unbounded shapes whose holes only touch are not nested *)
+Example C03_nonvacuous_F22 :
+  let nX := [[(0,0);(0,1)];[(0,1);(1,1)];[(1,1);(1,0)];[(1,0);(0,0)]] in
+  let nY := [[(1,1);(1,3)];[(1,3);(3,3)];[(3,3);(3,1)];[(3,1);(1,1)]] in
+  contains_shape (SC (CS nX)) (SC (CS nY)) = Ok false /\ contains_shape (SC (CS nY)) (SC (CS nX)) = Ok false.
+Proof. vm_compute. split; reflexivity. Qed.
